@@ -51,11 +51,13 @@ var StringBuilderPool = sync.Pool{
 
 func NewStringBuilder() *strings.Builder {
 	sb := StringBuilderPool.Get().(*strings.Builder)
+	VerifEmit("get", "stringbuilder", "", sb)
 	sb.Reset()
 	return sb
 }
 
 func FreeStringBuilder(sb *strings.Builder) {
+	VerifEmit("put", "stringbuilder", "", sb)
 	StringBuilderPool.Put(sb)
 }
 
